@@ -212,6 +212,16 @@ def _clash_group(rng, nm, tg, mult, blockers):
         else:
             g = bytes(rng.randrange(256) for _ in range(20))
         es.append((nm, t, g, PERMS[t] if rng.random() < 0.85 else rng.choice([0, 0o100755, 7])))
+    if rng.random() < 0.25:
+        # names that sort strictly between NAME and NAME/ (the sort key of a directory): the entries of one name
+        # are then not adjacent in tree order when a dir and a non-dir share the name
+        if not one_type and rng.random() < 0.7:
+            es.append((nm, "dir", tg, PERMS["dir"]))
+            es.append((nm, rng.choice(["file", "rev"]), tg, PERMS["file"]))
+        for _ in range(rng.choice([1, 1, 2])):
+            t = rng.choice(TYPES)
+            es.append((nm + rng.choice([b".", b".c", b"-", b" x", b"\x01", b"+", b"\x2e\x2e", b"\x00"]), t,
+                       rng.choice([tg, bytes(rng.randrange(256) for _ in range(20))]), PERMS[t]))
     base = base_name(nm, tg)
     gap = rng.choice([None, None, None, 0, 1, 2])
     k = 0
@@ -368,7 +378,7 @@ WITNESS_NAME_TAKEN = _w([(b"a", "file", T1), (b"a", "file", T2), (b"a_0202020202
 
 
 def gen(rng, tier):
-    n_cases = 3100 if tier == "quick" else 115000          # every third one from the clash-path generator
+    n_cases = 3100 if tier == "quick" else 100000          # every third one from the clash-path generator
     P1, P2 = b"100%", b"%s"
     cases = [_w([]), WITNESS_EQUAL_TARGETS, WITNESS_NAME_TAKEN,
              _w([(b"a", "file", T1), (b"a", "dir", T2), (b"a", "rev", T3)]),
